@@ -409,26 +409,8 @@ def _boundary(res):
 
 
 def _fuzz(res, seed):
-    """Coverage-guided second driver (atheris on the same Hypothesis test); never the sole decider."""
-    try:
-        import atheris  # noqa
-    except Exception as e:
-        res.notes.append("atheris unavailable, fuzz stage skipped: %s" % e)
-        return
-    import subprocess, sys, os, json, tempfile
-    here = os.path.dirname(os.path.dirname(os.path.abspath(__file__)))
-    with tempfile.TemporaryDirectory(prefix="c18fuzz") as td:
-        out = os.path.join(td, "out.json")
-        cmd = [sys.executable, os.path.join(here, "vlib", "fuzz_driver.py"), "props.c18", out, str(seed % (2 ** 31)), "60000"]
-        p = subprocess.run(cmd, cwd=td, capture_output=True, text=True, timeout=1500)
-        if os.path.exists(out):
-            d = json.load(open(out))
-            res.evaluations += d["executions"]
-            res.extra["fuzz_executions"] = d["executions"]
-            for v in d["violations"]:
-                res.add_violation(v["case"], v["msg"], v["bucket"])
-        else:
-            res.notes.append("fuzz driver produced no output (rc=%s): %s" % (p.returncode, p.stderr[-400:]))
+    from vlib import simple
+    simple.fuzz_stage(res, "props.c18", seed, 60000)
 
 
 def run_shard(spec, seed, tier):
